@@ -37,6 +37,16 @@ fn dispatch<P: Property>(p: &P, opts: &Opts, replay_file: Option<PathBuf>) -> i3
     if let Ok(f) = std::env::var("PKGSIM_INTERNAL_EXEC") {
         return child_exec_main(p, std::path::Path::new(&f));
     }
+    if let Ok(spec) = std::env::var("PKGSIM_INTERNAL_PREFIX") {
+        let parts: Vec<&str> = spec.split(':').collect();
+        if parts.len() == 3 {
+            let seed = parts[0].parse::<i64>().unwrap_or(1) as u64;
+            let tier = if parts[1] == "thorough" { Tier::Thorough } else { Tier::Quick };
+            let upto = parts[2].parse::<u64>().unwrap_or(0);
+            return prefix_exec_main(p, seed, tier, upto);
+        }
+        return 2;
+    }
     if let Some(f) = replay_file {
         return match replay(p, &f) {
             Ok(true) => 1,
@@ -113,6 +123,10 @@ fn main() {
             }
             "--runs" => {
                 runs_override = Some(need(i).parse().unwrap_or_else(|_| usage()));
+                i += 2;
+            }
+            "--exec-prefix" => {
+                std::env::set_var("PKGSIM_INTERNAL_PREFIX", need(i));
                 i += 2;
             }
             "--exec-scenario" => {
